@@ -1,7 +1,119 @@
-(* C08 property theorems (under construction). *)
-From MptV Require Import C08.ParseModel C08.ParseSpec.
+(* C08 — Configuration parser is total and fails cleanly.
+   Only theorem statements (closed by [exact] of lemmas proved in ParseProofs.v /
+   ParseConfig.v), non-vacuity examples and Print Assumptions.
+
+   Reading guide.  The input is a [list Z] behind a getc that hands out every
+   element once and then -2 (an element <= 0 is a NUL byte or a read error code).
+   [parse_events fam f a l] is mpt_parse_config for the family [fam] ('*' FamPre,
+   'x' FamEnc, ' ' FamSep, '_' FamOpt), ANY format record [f] (delimiters, comment
+   and escape characters, zero = unset), ANY name flags [a], with a path handler
+   that records the events; [parse_node target fmt a l] is mpt_parse_node with ANY
+   format string.  [c_rest] is the input not yet read, [calls] the number of getc
+   callbacks, [c_h] the events.  ROutOfFuel / RFault are model-only codes: loop
+   fuel exhausted / read outside the post data; the theorems exclude both. *)
 From Coq Require Import List ZArith.
+From MptV Require Import C08.ParseModel C08.ParseSpec C08.ParseBase C08.ParseProofs C08.ParseConfig.
 Import ListNotations.
 Local Open Scope Z_scope.
-Example C08_example_runs : c_ret (parse_events FamPre fmt_default allow_init [97; 32; 123; 10; 125; 10]) = 0.
+
+(* The parser returns for every byte string, family, format and flag set (the outer loop
+   fuel always suffices; all inner loops are structural recursions on the input), and what
+   it read is a prefix of the input: every character is taken at most once. *)
+Theorem C08_parse_total :
+  forall fam f a l,
+    let c := parse_events fam f a l in
+    c_ret c <> ROutOfFuel /\ exists consumed, consumed ++ c_rest c = l.
+Proof. exact parse_events_total. Qed.
+
+Theorem C08_parse_node_total :
+  forall target fmt a l,
+    let n := parse_node target fmt a l in
+    n_ret n <> ROutOfFuel /\ exists consumed, consumed ++ n_rest n = l.
+Proof. exact parse_node_total. Qed.
+
+(* getc callbacks: one per character read plus at most one end-of-input report per element call *)
+Theorem C08_getc_count_le_length :
+  forall fam f a l,
+    let c := parse_events fam f a l in
+    calls (c_st c) <= (len l - len (c_rest c)) + nev (c_h c) + 1.
+Proof. exact parse_events_calls. Qed.
+
+(* A failed mpt_parse_node leaves the target tree identical. *)
+Theorem C08_fail_leaves_target :
+  forall target fmt a l,
+    n_ret (parse_node target fmt a l) < 0 -> n_tree (parse_node target fmt a l) = target.
+Proof. exact parse_node_fail_leaves. Qed.
+
+(* On success the events are well nested: every section end closes an open section, an
+   option is reported inside the section that is open, and the path the handler sees is
+   exactly the stack of open section names (plus the option name). *)
+Theorem C08_events_well_nested :
+  forall fam f a l,
+    let c := parse_events fam f a l in
+    0 <= c_ret c -> nested [] (c_h c) = true.
+Proof. exact parse_events_nested. Qed.
+
+(* the same in the pure grammar view Section | SectEnd | Option | Data: the depth never drops below zero *)
+Theorem C08_events_depth :
+  forall fam f a l,
+    let c := parse_events fam f a l in
+    0 <= c_ret c -> depth_ok 0 (abs_events (c_h c)) = true.
+Proof. exact parse_events_depth. Qed.
+
+(* No read outside the post data of the path: name checks and values handed to the
+   handler lie inside the bytes collected (model-level statement of "no invalid access"). *)
+Theorem C08_no_fault :
+  forall fam f a l, c_ret (parse_events fam f a l) <> RFault.
+Proof. exact parse_events_no_fault. Qed.
+
+(* one element call, any state satisfying the invariant: consumption, effect on the path
+   elements by return code, invariant kept *)
+Theorem C08_element_call :
+  forall fam f a prev l s, el l s (next_elem fam f a prev l s).
+Proof. exact next_elem_el. Qed.
+
+(* ---- non-vacuity ---- *)
+Definition txt1 : list Z :=   (* a {\n b = "x y"\n c {\n }\n}\nd=1\n *)
+  [97;32;123;10;32;98;32;61;32;34;120;32;121;34;10;32;99;32;123;10;32;125;10;125;10;100;61;49;10].
+
+Example C08_ex_events :
+  map (fun e => (ev_ret e, ev_path e, ev_val e)) (c_h (parse_events FamPre fmt_default allow_init txt1)) =
+  [(1, [[97]], None); (7, [[97]; [98]], Some [120;32;121]); (1, [[97]; [99]], None); (2, [[97]; [99]], None);
+   (2, [[97]], None); (7, [[100]], Some [49])]
+  /\ c_ret (parse_events FamPre fmt_default allow_init txt1) = 0.
+Proof. vm_compute. split; reflexivity. Qed.
+
+Example C08_ex_tree :
+  n_tree (parse_node [] None allow_init txt1) =
+  [T [97] None [T [98] (Some [120;32;121]) []; T [99] None []]; T [100] (Some [49]) []].
 Proof. vm_compute. reflexivity. Qed.
+
+(* a section end without open section: error, and the non-empty target is untouched *)
+Example C08_ex_fail :
+  let n := parse_node [T [107] (Some [49]) []] None allow_init [97;61;49;10;125;10] in
+  n_ret n = MissingData /\ n_tree n = [T [107] (Some [49]) []].
+Proof. vm_compute. split; reflexivity. Qed.
+
+(* an unterminated quote swallows the rest and the open section is reported as missing data *)
+Example C08_ex_unterminated :
+  c_ret (parse_events FamPre fmt_default allow_init [97;123;98;61;34;120;10;125;10]) = MissingData.
+Proof. vm_compute. reflexivity. Qed.
+
+(* the other families *)
+Example C08_ex_sep :
+  map ev_ret (c_h (parse_events FamSep (fst (parse_format (Some [91;32;93;32;61;32;35]))) allow_init
+                                [91;97;93;10;107;61;49;10;91;98;93;10])) = [1; 7; 2; 1].
+Proof. vm_compute. reflexivity. Qed.
+Example C08_ex_enc :
+  map ev_ret (c_h (parse_events FamEnc (fst (parse_format (Some [37;120;37;32;61;32;35]))) allow_init
+                                [37;97;10;107;107;61;49;10;37;98;10])) = [1; 7; 2; 1].
+Proof. vm_compute. reflexivity. Qed.
+
+Print Assumptions C08_parse_total.
+Print Assumptions C08_parse_node_total.
+Print Assumptions C08_getc_count_le_length.
+Print Assumptions C08_fail_leaves_target.
+Print Assumptions C08_events_well_nested.
+Print Assumptions C08_events_depth.
+Print Assumptions C08_no_fault.
+Print Assumptions C08_element_call.
